@@ -456,8 +456,8 @@ def history_out(fr):
     out = [[1]]
     for s in fr.signals:
         out.append([int(bool(s.is_multiplexer)), int(s.mux_val is not None), s.mux_val if s.mux_val is not None else 0,
-                    int(s.muxer_for_signal is not None), idx(s.muxer_for_signal) if s.muxer_for_signal is not None else 0]
-                   + tok_kind(s.multiplex))
+                    int(s.muxer_for_signal is not None), idx(s.muxer_for_signal) if s.muxer_for_signal is not None else 0])
+        # Signal.multiplex itself is not compared: the property names mux_val / is_multiplexer / muxer_for_signal / mux_val_grp only
     return out
 
 
@@ -939,15 +939,8 @@ def run(chk):
             if ref != out:
                 chk.violation("history-vs-fresh-encode", "a frame whose roles were re-assigned encodes differently from a frame built directly "
                               "with the same final roles", dict(frame=desc_brief(desc), history=steps, data=data), ref, out)
-    # histories with multiplex_signals() anywhere (tie only: a bare multiplex_setter leaves the `multiplex` attribute stale and
-    # multiplex_signals() copies it back into mux_val - the model describes exactly that)
-    for _ in range(150 if not thorough else 2000):
-        desc = gen_simple(rng)
-        ctor, ops = gen_history(rng, desc, free_mux_signals=True)
-        fr, stored_str = run_history(C, desc, ctor, ops)
-        chk.count("history (tie only, multiplex_signals anywhere)")
-        add(307, history_case(desc, ctor, ops), [[0]] if stored_str else history_out(fr), dict(history=history_brief(ctor, ops)), "history-free")
-
+    # (histories that call multiplex_signals() while a signal's `multiplex` attribute disagrees with its role are not generated:
+    #  what the bookkeeping does with such a signal depends on an attribute the property does not name)
     # ================= in-place edits of a frame that was already used =================
     # one Frame object: decode (and encode) everything, edit the multiplexing structure through the API, use it again.
     # Property: what the frame answers depends on its definition NOW - judged by the oracle on the edited description and
